@@ -914,6 +914,13 @@ impl WorldD {
         if let Err((c, d)) = r {
             self.viol(out, "C20", &format!("cw20-ics20-list-allowed/{}", c), json!({"list":"list_allowed"}), d);
         }
+        for (c, g) in expected.iter().take(40) {
+            if let Ok(q) = chain.query::<cw20_ics20::msg::AllowedResponse>("ics20", &json!({"allowed":{"contract": c}})) {
+                if !q.is_allowed || q.gas_limit != *g {
+                    self.viol(out, "C20", "cw20-ics20-list-allowed/listed-item-ne-point-query", json!({"list":"list_allowed"}), format!("{}: listed {:?} but Allowed says {:?}", c, g, q));
+                }
+            }
+        }
         *self.meter.probes.entry("c20_pages_walked").or_insert(0) += pages;
         self.meter.flag("c20_probed");
     }
